@@ -215,6 +215,9 @@ MUTANTS = [
     ('C11', 'rtl_layer.py', '    self.kernel_regularizer = kernel_regularizer\n',
      '    self.kernel_regularizer = kernel_regularizer or []\n', 'S15',
      'None regularizer stored (and serialised) as an empty list'),
+    ('C16', 'premade_lib.py', '  if ((isinstance(model_config, configs.CalibratedLatticeEnsembleConfig) or\n       isinstance(model_config, configs.CalibratedLatticeConfig)) and\n      model_config.parameterization',
+     '  if ((isinstance(model_config, configs.CalibratedLatticeConfig)) and\n      model_config.parameterization', 'V12',
+     'Kronecker-factored ensembles no longer reach their validator'),
     # ---- neutral variants (must stay silent)
     ('C08', 'lattice_lib.py', '    average = (layers[i] + layers[i + 1]) / 2.0', '    average = 0.5 * (layers[i] + layers[i + 1])',
      None, 'N: average written as 0.5 * sum'),
